@@ -10,6 +10,10 @@
        media       "proto" | "json" | "other"    (HTTP Content-Type; gRPC is always "proto")
        wellformed  the body is a well-formed export request in the announced encoding
        items       "some" | "zero"               (a request with no spans / points / records / profiles)
+       recv        which peer the request is sent to: "off" | "auth" | "restricted" = the real receiver in three
+                   configurations; "stub" = a scripted HTTP server that answers r.stub = [status, ra] (used to
+                   show the exporter every HTTP status of the specification's table, also those the real
+                   receiver never produces, e.g. 502 and 504)
        outcome     what the receiver's next consumer returns:
                      [kind |-> "nil"] | [kind |-> "perm"]   consumererror.NewPermanent(plain error)
                      [kind |-> "trans"]                     plain error
@@ -37,7 +41,8 @@ BadMethod(r)     == r.transport = "http" /\ r.method # "POST"
 BadEncoding(r)   == r.transport = "http" /\ r.enc # "none" /\ ~EncEnabled(r)
 Rejectable(r)    == ~Authenticated(r) \/ Malformed(r) \/ BadMedia(r) \/ BadMethod(r) \/ BadEncoding(r)
 Acceptable(r)    == ~Rejectable(r)
-Reaches(r)       == Acceptable(r) /\ r.items = "some"       \* must be handed to the next consumer
+Stubbed(r)       == r.recv = "stub"
+Reaches(r)       == ~Stubbed(r) /\ Acceptable(r) /\ r.items = "some"   \* must be handed to the next consumer
 HasStatus(r)     == r.outcome.kind = "status"
 
 (* ---- derived facts about what was on the wire ---------------------------------------------- *)
@@ -58,8 +63,8 @@ Retrying(o)   == o.cls.class \in { "retryable", "throttle" }
    items are acknowledged"). *)
 ExpectSuccess(r) == Acceptable(r) /\ (r.items = "zero" \/ r.outcome.kind = "nil")
 SuccessIff(r, o) ==
-    /\ WireOK(o) <=> ExpectSuccess(r)
-    /\ ByExporter(r) => (o.cls.class = "success" <=> ExpectSuccess(r))
+    /\ ~Stubbed(r) => (WireOK(o) <=> ExpectSuccess(r))
+    /\ ByExporter(r) => (o.cls.class = "success" <=> WireOK(o))
 
 (* "reaches the receiver's next consumer equal to what was sent" -- once. *)
 Delivered(r, o) == Reaches(r) => (o.consumed = 1 /\ o.eq)
@@ -96,7 +101,9 @@ PermanentIffNonRetryable(r, o) ==
 (* "(honouring a requested throttling delay)".  Exporter half: a retryable wire response that asks
    for a positive delay is classified as throttled with exactly that delay, and a throttle
    classification never invents a delay.  End to end: a delay requested by the consumer through
-   RetryInfo on a retryable status arrives at the sender (whole seconds: Retry-After is in seconds). *)
+   RetryInfo on a retryable status arrives at the sender: exactly over gRPC, to the second over HTTP
+   (Retry-After is in whole seconds; the statement does not say how a fraction is rounded, so the
+   second below and the second above are both admitted). *)
 ThrottleHonoured(r, o) ==
     /\ (ByExporter(r) /\ WireFailure(o) /\ WireRetryable(o) /\ WireDelay(o) > 0) =>
           (o.cls.class = "throttle" /\ o.cls.delay = WireDelay(o))
@@ -104,7 +111,9 @@ ThrottleHonoured(r, o) ==
           (WireFailure(o) /\ WireRetryable(o) /\ WireDelay(o) # NoRI /\ o.cls.delay = WireDelay(o))
     /\ (ByExporter(r) /\ Reaches(r) /\ HasStatus(r) /\ r.outcome.ri > 0
           /\ GrpcRetryable(r.outcome.code, TRUE)) =>
-          (o.cls.class = "throttle" /\ o.cls.delay = r.outcome.ri)
+          /\ o.cls.class = "throttle"
+          /\ IF r.transport = "grpc" THEN o.cls.delay = r.outcome.ri
+             ELSE o.cls.delay \in { (r.outcome.ri \div 1000) * 1000, ((r.outcome.ri + 999) \div 1000) * 1000 }
 
 (* "Malformed, unsupported-media-type, wrong-method or (when an authenticator is configured)
    unauthenticated requests are answered with the protocol's client-error statuses and never reach
@@ -122,7 +131,7 @@ RejectedNeverConsumed(r, o) ==
 
 (* "requests with no items are acknowledged without invoking it". *)
 EmptyAckWithoutConsume(r, o) ==
-    (Acceptable(r) /\ r.items = "zero") => (o.consumed = 0 /\ WireOK(o))
+    (~Stubbed(r) /\ Acceptable(r) /\ r.items = "zero") => (o.consumed = 0 /\ WireOK(o))
 
 HopClauseNames == { "SuccessIff", "Delivered", "StatusPassthrough", "PermanentIffNonRetryable",
                     "ThrottleHonoured", "RejectedNeverConsumed", "EmptyAckWithoutConsume" }
